@@ -271,6 +271,7 @@ pub fn gen_case(prop: &str, thorough: bool, weak: bool, rng: &mut Rng) -> Case {
         "C08" => {
             return gen_c08(rng, weak, thorough);
         }
+        "C13" if rng.below(3) == 0 => return gen_c13_nested_wrap(rng, cfg, thorough),
         "C13" => {
             // make sure the wrap is actually reached: a SetGen followed by fallback loads
             let nt = prog.threads.len();
@@ -291,8 +292,8 @@ pub fn gen_case(prop: &str, thorough: bool, weak: bool, rng: &mut Rng) -> Case {
             }
         }
         "C11" if rng.below(3) == 0 => return gen_c11_readonly(rng, cfg, thorough),
-        "C13" if rng.below(3) == 0 => return gen_c13_nested_wrap(rng, cfg, thorough),
         "C07" | "C01" | "C03" if rng.below(4) == 0 => return gen_aba_storm(rng, cfg, thorough),
+        "C07" | "C10" if rng.below(5) == 0 => return gen_guard_roundtrip(rng, cfg, thorough),
         "C16" => return crate::extras::gen_c16(rng, cfg, thorough),
         "C17" => return crate::extras::gen_c17(rng, cfg, thorough),
         _ => {}
@@ -314,6 +315,13 @@ fn gen_c08(rng: &mut Rng, weak: bool, thorough: bool) -> Case {
         vops.push(Op::Load {
             c: 0,
             g: N_G + i as u8,
+        });
+    }
+    if rng.below(4) == 0 {
+        // the wrap-around of the thread's transaction counter falls among the measured loads (it
+        // costs a node hand-over, still a bounded number of own steps and no waiting)
+        vops.push(Op::SetGen {
+            off: 1 + rng.below(3) as i32,
         });
     }
     let n_loads = 2 + rng.below(4) as usize;
@@ -469,6 +477,71 @@ fn gen_aba_storm(rng: &mut Rng, mut cfg: RunCfg, thorough: bool) -> Case {
     cfg.p_reuse = 240;
     cfg.p_fast_slot_refused = 0;
     cfg.p_switch_after_mark = choose(rng, &[64, 160, 220]);
+    Case {
+        cfg,
+        prog: Program {
+            conts,
+            threads,
+            final_order: rng.below(4) as u8,
+        },
+    }
+}
+
+/// C07 / C10 (guard round trip): a guard is created by a thread that later writes, is handed to
+/// a second thread which reads through it and gives the borrow back (into the FIRST thread's
+/// node), and the value's last reference is dropped by a third thread after the write. The only
+/// happens-before path from the second thread's read to the destructor runs through the slot.
+fn gen_guard_roundtrip(rng: &mut Rng, mut cfg: RunCfg, thorough: bool) -> Case {
+    let kind = choose(rng, &[CKind::AD, CKind::OD, CKind::AD, CKind::AF]);
+    let conts = vec![
+        ContSpec { kind, init: Init::New },
+        ContSpec { kind: CKind::AD, init: Init::New },
+    ];
+    let mut threads = vec![ThreadProg::default()];
+    // 1: the writer that lends its guard out
+    let mut w = vec![Op::LoadDrop { c: 0 }];
+    let n_g = 1 + rng.below(2) as u8;
+    for g in 0..n_g {
+        w.push(Op::Load { c: 0, g });
+    }
+    for g in 0..n_g {
+        w.push(Op::SendGuard { g, to: 2 });
+    }
+    for _ in 0..rng.below(4) {
+        w.push(Op::LoadDrop { c: 1 });
+    }
+    for _ in 0..(1 + rng.below(if thorough { 3 } else { 2 })) {
+        w.push(match rng.below(4) {
+            0 => Op::Swap { c: 0, v: V::New, h: 0 },
+            1 => Op::Cas { c: 0, cur: Cur::Stored, form: 3, v: V::New, g: 5 },
+            _ => Op::Store { c: 0, v: V::New },
+        });
+    }
+    threads.push(ThreadProg { ops: w, top: true });
+    // 2: the borrower: polls its mailbox while the writer runs, reads and drops what arrives
+    threads.push(ThreadProg {
+        ops: vec![Op::Loop {
+            ops: vec![Op::RecvDrop, Op::LoadDrop { c: 1 }],
+            until: 1,
+            max: 12,
+        }],
+        top: true,
+    });
+    // 3: holds a full reference taken early and drops it after the writer is done
+    threads.push(ThreadProg {
+        ops: vec![
+            Op::LoadFull { c: 0, h: 0 },
+            Op::Loop {
+                ops: vec![Op::LoadDrop { c: 1 }],
+                until: 1,
+                max: 40,
+            },
+            Op::DropHandle { h: 0 },
+        ],
+        top: true,
+    });
+    cfg.p_fast_slot_refused = choose(rng, &[0, 0, 48]);
+    cfg.p_switch_after_mark = choose(rng, &[0, 64, 160]);
     Case {
         cfg,
         prog: Program {
